@@ -12,780 +12,706 @@ Definition show_fres (r : fres) : string :=
   end.
 Definition check (rs : list rune) : string := digest (show_fres (format_res rs)).
 Definition full (rs : list rune) : string := show_fres (format_res rs).
-Eval vm_compute in ("<<<M1345>>>" ++ check (runes_of_ascii "options { StringPrefixLenType
-    // c2
-= u16 // c4
-; // c5a
-  // c5b
-ArrayPrefixLenType = // c7a
+Eval vm_compute in ("<<<M1354>>>" ++ check (runes_of_ascii "// top
+options // c0
+{
+    // c1
+StringPrefixLenType = u16 ; // c5
+ArrayPrefixLenType
+    // c6
+= // c7a
   // c7b
-u32
-    // c8
-;
+u32 ;
     // c9
-FixedStringPadFromLeft = // c11a
-  // c11b
-true // c12
-; // c13
-FixedStringPadChar = // c15a
+FixedStringPadFromLeft
+    // c10
+= // c11
+true // c12a
+  // c12b
+; FixedStringPadChar = // c15a
   // c15b
 '0' // c16a
   // c16b
-; // c17
-} // c18
+;
+    // c17
+} packet Cancel // c20
+{ // c21a
+  // c21b
+} // c22a
+  // c22b
 packet
-    // c19
-Cancel { } packet // c23a
-  // c23b
-Party // c24a
-  // c24b
-{ }
+    // c23
+Party { }
     // c26
-packet
-    // c27
-Logon // c28a
-  // c28b
-{ // c29a
-  // c29b
-} packet // c31
-Ack
-    // c32
+packet // c27a
+  // c27b
+Logon // c28
+{ } packet
+    // c31
+Ack // c32
 { // c33a
   // c33b
-}
-    // c34
-packet
-    // c35
+} // c34
+packet // c35a
+  // c35b
 Logout // c36
-{ repeat // c38a
-  // c38b
-InSym87 // c39
-{ InClordid94 {
+{ // c37a
+  // c37b
+repeat // c38
+InSym87
+    // c39
+{ // c40a
+  // c40b
+InClordid94 // c41
+{
     // c42
-string // c43
-clOrdID // c44a
-  // c44b
-, // c45a
-  // c45b
-} // c46a
-  // c46b
-,
+string // c43a
+  // c43b
+clOrdID ,
+    // c45
+} ,
     // c47
-string Px ,
-    // c50
-i16 // c51
-Qty // c52
-,
-    // c53
-repeat // c54a
-  // c54b
-InCount71 // c55
-{ // c56
-repeat // c57a
+string // c48a
+  // c48b
+Px // c49
+, i16 // c51a
+  // c51b
+Qty
+    // c52
+, // c53
+repeat
+    // c54
+InCount71 { repeat // c57a
   // c57b
 Cancel
     // c58
 ,
     // c59
-uint16 // c60a
-  // c60b
-Tail // c61a
-  // c61b
+uint16 // c60
+Tail
+    // c61
 ,
     // c62
-char[ // c63a
-  // c63b
-2 // c64
-]
-    // c65
-x // c66
-,
-    // c67
-repeat string Ref , } // c72
-,
-    // c73
-Cancel // c74a
-  // c74b
-, // c75a
+char[
+    // c63
+2 // c64a
+  // c64b
+] // c65
+x , // c67a
+  // c67b
+repeat
+    // c68
+string // c69
+Ref // c70a
+  // c70b
+, // c71
+} , Cancel , // c75a
   // c75b
-} // c76a
-  // c76b
-, // c77
 }
+    // c76
+, }
     // c78
 root // c79
-packet // c80
+packet // c80a
+  // c80b
 Order // c81a
   // c81b
-{ repeat // c83a
+{ // c82
+repeat // c83a
   // c83b
-string tag7 // c85
-, @leftPad // c87a
-  // c87b
-( ' '
-    // c89
-) // c90a
-  // c90b
-char[
-    // c91
-3
-    // c92
-] // c93a
-  // c93b
-Px // c94
-,
-    // c95
+string
+    // c84
+tag7
+    // c85
+, @leftPad // c87
+( // c88a
+  // c88b
+' ' ) // c90
+char[ 3 ]
+    // c93
+Px
+    // c94
+, // c95a
+  // c95b
 u8
     // c96
-Qty // c97
-,
+Qty ,
     // c98
-match // c99a
-  // c99b
-Qty as // c101
-Body // c102
-{ // c103
-[ // c104
-28 // c105
+match Qty as // c101a
+  // c101b
+Body { [ // c104a
+  // c104b
+28 // c105a
+  // c105b
 , // c106
 62 // c107
-] // c108a
-  // c108b
+] // c108
 :
     // c109
 Logon
     // c110
-, 148 // c112
-: // c113
-Ack ,
-    // c115
-88 // c116a
-  // c116b
-: // c117
-Party , 184 // c120
-: // c121a
-  // c121b
-Cancel // c122
-, // c123a
-  // c123b
-} // c124a
-  // c124b
-, // c125
-u16 Note
-    // c127
-@calculatedFrom( ""CRC32"" // c129a
-  // c129b
-) // c130a
-  // c130b
-, } // c132
-")).
-Eval vm_compute in ("<<<M1415>>>" ++ check (runes_of_ascii "options {
-    BodyLength = 3;// " ++ [128512]%N ++ runes_of_ascii " emoji
-    T = ""packet"";
-    // c
-    // trailing space 
-    crc = true;
-    falsey = '\x00';
+, // c111a
+  // c111b
+148 // c112
+: // c113a
+  // c113b
+Ack
+    // c114
+, // c115a
+  // c115b
+88
+    // c116
+: Party // c118a
+  // c118b
+, // c119
+184 // c120a
+  // c120b
+: Cancel // c122a
+  // c122b
+, // c123
+} // c124
+, // c125a
+  // c125b
+u16
+    // c126
+Note // c127
+@calculatedFrom( ""CRC32"" // c129
+) // c130
+, // c131
+} ")).
+Eval vm_compute in ("<<<M1869>>>" ++ check (runes_of_ascii "root packet crc {
+    uint32 repeatCount @lengthOf(MetaDataX) `say ""hi""`,
+    @tag(65535)
+    A {
+        u128,
+        u8x {
+            repeatCount @lengthOf(As),// packet A { u8 x, }
+            i32 _x @calculatedFrom(""" ++ [128512]%N ++ runes_of_ascii """),
+        },
+    },
+    @lengthOf(As)
+    @tag(0)
+    @tag(4294967296)
+    string metadata,
+    string lengthOf @lengthOf(f32a),
+    @tag(3)
+    string packetx,
+    @lengthOf(Pad)
+    @lengthOf(packetx)
+    BodyLength @calculatedFrom(""a	b""),
+    repeat u8x {
+        zchar[3] tag `doc`,
+        match As as leftPad {
+            [10, 3, 7, ""abc"", 42] : A,
+        },
+        match Header as falsey {
+            42 : msg_type,
+            00 : A,
+            1 : charz,
+            ""// no comment"" : int,
+            0123456789 : chars,
+            4294967296 : x,
+        },
+    },
+    @tag(10)
+    @tag(007)
+    @calculatedFrom(""`tick`"")
+    i8i8 @lengthOf(charz),
+    char[7] Header,
 }
 
-root packet A {
-    @leftPad('0')
-    char[65535] Header `" ++ [233]%N ++ runes_of_ascii "`,
-    @rightPad('0')
-    //
-    a1 @lengthOf(msg_type),
-    @lengthOf(rootA)
-    match _x as stringy {
-        ""CRC32"" : chars,
-        3 : float,
-        255 : asx,
-        10 : tag,
-    },
-    @calculatedFrom(""" ++ [128512]%N ++ runes_of_ascii """)
-    u32 u8x `crlf
-        line`,
-    repeat char[] asx `a\`,
-    @rightPad('0')
-    match f32a as Packet {
-        [
-            255, 007, 00, 4294967296, ""CRC32"",
-            ""1"", ""packet""
-        ] : calculatedFrom,
-        ""packet"" : falsey,
-        ""a\""b"" : body,
-        7 : Packet,
+packet lengthOf {
+    match metadata as asx {
+        7 : float,
         // " ++ [128512]%N ++ runes_of_ascii " emoji
-        0123456789 : i64_,
-        // a // b
-        [4294967296, 0123456789] : options1,
+        """ ++ [233]%N ++ runes_of_ascii "t" ++ [233]%N ++ runes_of_ascii """ : stringy,
+        """ ++ [28040; 24687]%N ++ runes_of_ascii """ : BodyLength,
+        7 : leftPad,
     },
-    crc @lengthOf(Foo),
-    @calculatedFrom(""{,}"")
-    @lengthOf(metadata)
-    @lengthOf(i8i8)
-    int64 options1 @calculatedFrom(""CRC32"") `line1
-        line2`,// @lengthOf(
+    @lengthOf(MetaDataX)
+    repeat zchar[7] float,
+    @tag(0)
+    matchKey @calculatedFrom(""packet""),
 }
 
-packet a1 {
-    match lengthOf as x_y_z {
-        ""it's"" : matchKey,
-        10 : Packet,
-        [""abc""] : A,
-        10 : metadata,
-    },
+packet Pad {
+    options1 @lengthOf(rootA),
 }
 
-MetaData body {
-    char string_,
-    char[] x,
-    len Pad,
-    string leftPad,
-}// trailing space")).
-Eval vm_compute in ("<<<M1762>>>" ++ check (runes_of_ascii "packet
-pack
-	{ @lengthOf(
-Foo 
+root packet BodyLength {
+    string uint8x @lengthOf(Z9_),
+}// c")).
+Eval vm_compute in ("<<<M134>>>" ++ check (runes_of_ascii "packet // " ++ [128512]%N ++ runes_of_ascii " emoji
+x{
+    //x
+    lengthOf @calculatedFrom(""abc"")
+`u8 x,`
+    ,
+@rightPad( )
+//x
+// @lengthOf(
+float32 Packet @lengthOf( falsey ) ,	char[ 10] falsey , @tag( 3  ) repeat zchar[
+    4294967296 ] repeatCount ,repeatCount`say ""hi""` , int16 u128 // `tick` ""quote"" 'q'
+,
+char[ 3
+] crc
+@calculatedFrom( ""x y"" )
+, // trailing space 
+@leftPad
+    (
+    // " ++ [27880; 37322]%N ++ runes_of_ascii "
+    '\x00' )	match chars as i8i8 {
+    42 : charz// trailing space 
+,}
+, }  options {	} MetaData metadata { char[ 4294967296 ] i8i8	,
+    float
+    rootA , i64
+    packetx // " ++ [27880; 37322]%N ++ runes_of_ascii "
+, i8 // " ++ [27880; 37322]%N ++ runes_of_ascii "
+roots `crlf
+line`
+    ,
+    tag i64_  , uint8 Pad `" ++ [233]%N ++ runes_of_ascii "`
+, }root packet Header{
+u64 options1  `two words`
+    , @calculatedFrom(""a\\"" // trailing space 
+) // " ++ [128512]%N ++ runes_of_ascii " emoji
+i32 //	t
+x_y_z	@calculatedFrom( ""a\""b"")`tab	here` , match
+A as len { [ ""CRC32"" // " ++ [128512]%N ++ runes_of_ascii " emoji
+,""it's""  ] //	t
+: Z9_ ""a	b"" :
+    o ,
+} , match asx
+as pack {0 :	x_y_z , }
+    , char[] i64_ `{ , }`
+,
+    }
+MetaData stringy
+{ // trailing space 
+lengthOf
+// `tick` ""quote"" 'q'
+//	t
+o, string//
+u8x , f32 string_ `doc` ,}
+")).
+Eval vm_compute in ("<<<M17>>>" ++ check (runes_of_ascii "
+MetaData
+    x{ len
+    crc , float
+    // " ++ [128512]%N ++ runes_of_ascii " emoji
+    asx, i32 uint8x`line1
+line2` ,u16
+tag
+// `tick` ""quote"" 'q'
+//x
+`it's` , As string_
+    ,
+}
+packet metadata {@lengthOf(zchar )// c
+i64_ @calculatedFrom(
+""\" ++ [233]%N ++ runes_of_ascii """	) , //x
+@leftPad
+    ( '\x00' ) zchar[ 10
+] zchar
+    ,
+    lengthOf //x
+string_ ,int @lengthOf( pack
+    ),
+    zchar[ 00 ]
+    Foo , @lengthOf( packetx )
+    @leftPad (
+'\x00'// " ++ [27880; 37322]%N ++ runes_of_ascii "
+) @calculatedFrom(
+    // @lengthOf(
+    ""x y"" )uint16
+len@calculatedFrom( """" )
+`two words` , int8
+    metadata @lengthOf( Foo )`two words`	, // @lengthOf(
+}options
+{ }
+packet
+pack{
+// `tick` ""quote"" 'q'
+//
+f64
+    o , T BodyLength  ,
+    repeat
+    uint8 chars  `" ++ [233]%N ++ runes_of_ascii "`
+    ,repeat
     // c
-    )asx
-@lengthOf( 
-_x
-
-    )/// triple
-  	, u8
-x_y_z	`two words`,	repeat zchar[ 0]	roots
+    Logon
+u
+    // " ++ [128512]%N ++ runes_of_ascii " emoji
+    ,@tag(
+    0123456789 )
+char[] repeatCount @lengthOf(// " ++ [27880; 37322]%N ++ runes_of_ascii "
+_x )
+    // c
+    `
+` ,//
+@tag(
+// packet A { u8 x, }
+/// triple
+7 )  repeatCount @calculatedFrom(""packet"" ) `{ , }` , }")).
+Eval vm_compute in ("<<<M371>>>" ++ check (runes_of_ascii "root
+    packet
+packetx
+    {
+    @tag( 0) char[00 ] Z9_
+    ,
+    // a // b
+    falsey
+    // c
+    { match
+    x as options1 { [//	t
+42 ,
+    007 ]:
+    uint8x } , uint8 falsey `crlf
+line` , }
+, f64 Pad
+, @tag(7  ) string Logon// " ++ [27880; 37322]%N ++ runes_of_ascii "
+`a\`, @lengthOf(
+lengthOf//	t
+) char[
+3
+    ]
+// " ++ [27880; 37322]%N ++ runes_of_ascii "
+//
+calculatedFrom @calculatedFrom(
+""" ++ [28040; 24687]%N ++ runes_of_ascii """
+)
+, char[]
+    T , //x
+@tag(
+42 ) @leftPad ( )
+    char[]trueish
+@calculatedFrom(""`tick`"" ) ,match
+    // `tick` ""quote"" 'q'
+    uint8x as pack { [
+    ""abc"",
+    ""1"" ,""packet""
+,
+// `tick` ""quote"" 'q'
+// `tick` ""quote"" 'q'
+1,
+    ""a\""b""]: As	, """ ++ [28040; 24687]%N ++ runes_of_ascii """ :
+    trueish ,} ,
+}
+packet/// triple
+charz
+{
+    repeat
+Z9_ { Pad  {match len as string_{
+    // a // b
+    4294967296
+    : msg_type , [""// no comment""
+    ] :u
+    ,
+} ,} , zchar[
+    65535
+] As  @lengthOf(//x
+string_
+)
+,
+} ,
+    }")).
+Eval vm_compute in ("<<<M312>>>" ++ check (runes_of_ascii "packet // packet A { u8 x, }
+tag
+    { @calculatedFrom(""x y"" ) lengthOf{ options1
+    `
+`,} , @tag( 7 )
+int {
+//x
+// " ++ [27880; 37322]%N ++ runes_of_ascii "
+char[ 007  ] // `tick` ""quote"" 'q'
+calculatedFrom @lengthOf(
+metadata
+)  , tag @lengthOf( falsey
+) ,	f32
+    // " ++ [128512]%N ++ runes_of_ascii " emoji
+    calculatedFrom
+// `tick` ""quote"" 'q'
+//
+`{ , }` , i8i8
+    {string
+    i64_ @lengthOf( asx )	`it's` , u @calculatedFrom(  ""\n"" ) ,
+    } ,	}
+    ,
+    @calculatedFrom(""abc"" //
+)  @leftPad ( ' '
+    )  uint64 calculatedFrom
+,// " ++ [27880; 37322]%N ++ runes_of_ascii "
+} packet o { Header ,
+    @lengthOf(	i8i8
+) float32
+    Pad // c
+,char[ 42 ]
+leftPad
+    @calculatedFrom(	"""" // " ++ [128512]%N ++ runes_of_ascii " emoji
+)
+    , @tag( 255 )
+body
+    u , } packet lengthOf{
+// packet A { u8 x, }
+// c
+@tag(
+    255 //x
+) char[ 0123456789 ] o
 `
-` 
-      // `tick` ""quote"" 'q'
-	,
+` , }
 
-lengthOf  @calculatedFrom( 
-""abc""
-    )
-,@tag(	3 
-) 
-@rightPad ( 
-' ') @calculatedFrom(
+")).
+Eval vm_compute in ("<<<M1924>>>" ++ check (runes_of_ascii "options {
+    // c1a
+    // c1b
+    LittleEndian = true;
+    // c5
+    StringPrefixLenType = u64;
+    // c9
+    ArrayPrefixLenType = u16;// c13a
+    // c13b
+    FixedStringPadFromLeft = false;
+    FixedStringPadChar = ' ';
+    // c21
+}
+
+packet Logon {
+    // c25
+    zchar[5] Side2,// c30
+}
+
+root packet Logout {
+    // c35
+    repeat i64 Tail,// c39
+    Logon,// c41
+    repeat i16 OrderId,// c45
+    char[] venue,
+    uint64 x,
+    // c51
+    repeat i16 count,
+    u8 Flags,
+    match Flags as Body {
+        25 : Logon,
+        // c67a
+        // c67b
+    },// c69a
+    // c69b
+    u16 Qty @calculatedFrom(""CRC32""),// c75a
+    // c75b
+}
+// c76")).
+Eval vm_compute in ("<<<M305>>>" ++ check (runes_of_ascii "packet
+pack{ u8 x ,
+char[
+    255 ]trueish
+@calculatedFrom(
+""// no comment"" ) `tab	here`,	@lengthOf( asx) repeat //
+zchar[
+0
+] stringy `
+`, @leftPad( '0' ) @calculatedFrom( // trailing space 
+""abc"" )
+    @calculatedFrom( ""it's""
+) char[] packetx@calculatedFrom( ""a	b"" ) `doc` , repeat string len
+    `two words`
+, uint16 matchKey
+    @lengthOf(
+    asx ) ,zchar[ 0 ]
+x `it's` // trailing space 
+, }
+    packet packetx {body  , string trueish `" ++ [233]%N ++ runes_of_ascii "` , @tag(255 )
+@tag(
+3
+// packet A { u8 x, }
+//	t
+) @calculatedFrom(
+    ""\n"" ) repeat f64 roots// trailing space 
+`" ++ [233]%N ++ runes_of_ascii "`	, /// triple
+} 	 ")).
+Eval vm_compute in ("<<<M1686>>>" ++ check (runes_of_ascii "options {
+    StringPrefixLenType = u8;
+    ArrayPrefixLenType = u8;
+    FixedStringPadFromLeft = false;
+    FixedStringPadChar = ' ';
+}
+
+packet Ack {
+    char[] tag7,
+}
+
+packet Reject {
+    InSym61 {
+        repeat Ack,
+        zchar[4] f1,
+    },
+}
+
+packet Logout {
+    char[4] clOrdID,
+}
+
+root packet Cancel {
+    @leftPad(' ')
+    char[10] price,
+    u8 x,
+    u32 venue @lengthOf(Body),
+    match x as Body {
+        [92, 175] : Logout,
+        26 : Reject,
+        144 : Ack,
+    },
+    u16 count @calculatedFrom(""CRC32""),
+}")).
+Eval vm_compute in ("<<<M334>>>" ++ check (runes_of_ascii "MetaData pack {
+int16 rootA `{ , }` ,
+    //	t
+    int16 // c
+x,// " ++ [27880; 37322]%N ++ runes_of_ascii "
+u32 msg_type,
+    }
+packet i64_
+    {// trailing space 
+@leftPad
+    ( '0') @rightPad ( '\x00' // packet A { u8 x, }
+)
+@lengthOf(options1	)
+    string body @lengthOf( asx) `" ++ [233]%N ++ runes_of_ascii "` ,
+    }
+options { msg_type
+    //	t
+    = 00//
+;} MetaData
+    stringy// c
+{
+    zchar MetaDataX `line1
+line2` , char[255] len `it's` , f32 pack ,
+    uint16 Foo
+`it's` , int16 i64_`two words` ,
+    // `tick` ""quote"" 'q'
+    }")).
+Eval vm_compute in ("<<<M1374>>>" ++ check (runes_of_ascii "
+
+  options
+{	LittleEndian
+=	true	;
+    StringPrefixLenType= 
+u64 
+;
+	ArrayPrefixLenType	=
+u16
+	;
+	FixedStringPadFromLeft
+
+=false ;
+
+FixedStringPadChar	=  ' '
+	; } 
+packet
+
+Logon{
+	zchar[  5 ] Side2
+
+,
+	} root
+
+packet Logout
+
+{repeat	i64 Tail
+, Logon
+    ,repeat
+i16
+OrderId
+
+,
+	char[]venue  ,
+    uint64
+	x,repeat
+	i16 count,
+	u8	Flags,	match Flags as Body{
+25 :
+Logon	,
+
+    }
+,
+
+u16 
+Qty
+    @calculatedFrom( ""CRC32""
+)	,	}
+")).
+Eval vm_compute in ("<<<M1673>>>" ++ check (runes_of_ascii "
+packet int
+
+{
+	T/// triple
+	{	repeat
+_x ,	}	,
+i64_
+_x
+	`
+`
+    ,  @calculatedFrom( 
+""x y""
+	) u32	A
+
+    ,
+match
+a1  as
+i8i8
+
+{	[
 
     ""1"" 
-  //x
-  // " ++ [27880; 37322]%N ++ runes_of_ascii "
-  ) repeat
-
-uint64 i64_  // trailing space 
-  `say ""hi""`  // @lengthOf(
-
-	,
-@tag(	007 )match
-	roots as  float { ""a	b"":
-    lengthOf  ,  [ 
-1
-,  // @lengthOf(
-
-""\n""
-    ,	""a\""b""
-    , ""\" ++ [233]%N ++ runes_of_ascii """
-    , ""1""
-	,	42
-
-    ] 
-:
-    msg_type
-    ,
-""" ++ [128512]%N ++ runes_of_ascii """:
-	Foo 
-} 
-,
-T //x
-{
-match
-Header as	trueish
-{ [ 
-  // `tick` ""quote"" 'q'
-	// @lengthOf(
-  0
-,
-	3// @lengthOf(
-,
-""{,}"" ,
-	""1""  , 00 
-,
-
-0123456789,
-""// no comment"" 
+, 4294967296 
 ]
+    : a1 , """"
 
-:As
+    : a1 
+,007:
+	a1
     ,
-    }  ,}
+[
+    ""CRC32""
 
-    ,  repeat	char[
-10
     ]
 
-    o`
-`
-
-    ,@calculatedFrom(  
-      //
-  ""`tick`""//x
-	  ) repeat
-crc { repeatCount o	,
-u8x
-	As 
+    :	Header }
 ,
-	}
 
-, 
-}packet pack {  @calculatedFrom(
-    """ ++ [233]%N ++ runes_of_ascii "t" ++ [233]%N ++ runes_of_ascii """
+    int64  As 
+,
+int8
 
-) 
-u32	f32a,}
+    a1
+	,//
+    char[]
+	float `tab	here` /// triple
+, repeat 
+zchar[ 1
 
-    MetaData float { u32
-    options1	, }
-	packet
-f32a
-{  }
+    ]u8x	,
+	}	/// triple
 ")).
-Eval vm_compute in ("<<<M1920>>>" ++ check (runes_of_ascii "packet i8i8 {
-    @tag(0)
-    int32 leftPad `it's`,
-    repeat char[] Header `crlf
-    line`,
-    @calculatedFrom(""\" ++ [233]%N ++ runes_of_ascii """)
-    /// triple
-    repeat uint8 float,
-    @rightPad('\x00')
-    char[] zchar @lengthOf(leftPad) `
-    `,
-    Z9_,
-    @lengthOf(x)
-    match As as tag {
-        ""a	b"" : string_,
-        [
-            10, 7, 255, 3, 42,
-            0123456789, ""1"", """ ++ [128512]%N ++ runes_of_ascii """
-        ] : x_y_z,
-        ""CRC32"" : Z9_,
-        00 : Logon,
-    },
-    @tag(007)
-    o {
-        char Packet @lengthOf(repeatCount),
-    },
-    @lengthOf(pack)
-    float64 rootA `two words`,
-    repeat char[] BodyLength,
-}
-
-packet Z9_ {
-    match As as a1 {
-        //
-        0 : trueish,
-    },
-}
-
-root packet u8x {
-    /// triple
-    // " ++ [128512]%N ++ runes_of_ascii " emoji
-    repeat string Logon `tab	here`,// " ++ [128512]%N ++ runes_of_ascii " emoji
-}
-
-options {
-    _x = ""packet"";
-    f32a = 007
-}
-
-packet i8i8 {
-    @calculatedFrom(""CRC32"")
-    A @lengthOf(a1),
-}")).
-Eval vm_compute in ("<<<M298>>>" ++ check (runes_of_ascii "
-options  { } options
-    {  uint8x =
-// @lengthOf(
-// " ++ [27880; 37322]%N ++ runes_of_ascii "
-42 uint8x = /// triple
-""abc"" ; //x
-_x='0'
-    }
-    packet u8x
-    { zchar[ 1 ] As
-`crlf
-line`, match metadata as float  { ""packet"" ://
-trueish , } , repeat
-rootA
-, repeat metadata repeatCount// trailing space 
-, @rightPad( // `tick` ""quote"" 'q'
-'0') i64 body `// not a comment`
-, @tag( 1) string string_
-    `line1
-line2` ,
-uint8 u8x`" ++ [28040; 24687; 31867; 22411]%N ++ runes_of_ascii "` ,
-packetx u128,	u tag , repeat Logon zchar
-`` ,  }packet zchar
-{
-    }	packet	MetaDataX { @lengthOf(
-Packet ) repeatCount  int
-`doc` , @tag(
-7 ) packetx @calculatedFrom( ""a\""b""// c
-) , match msg_type as x { ""\n"" : calculatedFrom }, //x
-@leftPad (// packet A { u8 x, }
-'\x00')@lengthOf( MetaDataX // c
-)
-    // a // b
-    char[007
-] a1`tab	here`, As
-    @calculatedFrom( ""`tick`"") `// not a comment`,} 	 ")).
-Eval vm_compute in ("<<<M1693>>>" ++ check (runes_of_ascii "MetaData len {
-    i8 _x ``,
-    zchar[00] tag,
-    roots u,
-    uint16 repeatCount,
-    msg_type tag,
-}
-
-packet x_y_z {
-    metadata {
-        i8i8 chars,
-        i64 chars,
-    },
-    repeat u16 asx,
-}
-
-packet u8x {
-    @lengthOf(BodyLength)
-    @leftPad()
-    float `
-    `,
-    @calculatedFrom(""// no comment"")
-    float32 chars `// not a comment`,
-    uint32 u128,
-    @tag(0)
-    int16 tag,
-    leftPad msg_type,// trailing space 
-    pack `tab	here`,
-    @lengthOf(repeatCount)
-    zchar[4294967296] len,
-    i32 packetx `tab	here`,
-    calculatedFrom,
-    metadata @calculatedFrom(""// no comment""),
-}
-
-options {
-    // trailing space 
-    options1 = 42;
-    i64_ = char[]
-    falsey = 42// a // b
-    Packet = true;
-}")).
-Eval vm_compute in ("<<<M1561>>>" ++ check (runes_of_ascii "
-//x
-
-root  
-      // " ++ [128512]%N ++ runes_of_ascii " emoji
-    packet 
-// `tick` ""quote"" 'q'
-
-	/// triple
-float { 
-options1
-A ,
-@tag( 42
-) u8x
-{tag//x
-    	@calculatedFrom(""\" ++ [233]%N ++ runes_of_ascii """
-
-    ) 	 // packet A { u8 x, }
-	`tab	here`	, }, int16 
-asx ,@lengthOf(	o) @rightPad
-
-    (
-)repeat int
-
-/// triple
-		/// triple
-
-Logon
-,  @calculatedFrom(
-	""// no comment"")
-	@leftPad  ( '\x00' 
-) @rightPad
-
-('0'
-)
-    zchar[ 65535	//x
-    	]
-o`
-`
-
-, repeat As
-	{ 	 //x
-  repeat
-
-uint16
-    o
-	,
-    repeat
-char[ 	 // trailing space 
-1	]  o	,
-
-    u128
-
-    metadata
-
-    , 
-repeat
-	char[7 ] Header,	}
-,@tag(
-0123456789
-
-)a1
-tag
-    ,float32
-asx
-	, repeat // packet A { u8 x, }
-	  len ``
-    ,	} ")).
-Eval vm_compute in ("<<<M208>>>" ++ check (runes_of_ascii "packet // packet A { u8 x, }
-u8x {}root packet
-    matchKey{
-repeat zchar[ 0123456789 ] // packet A { u8 x, }
-int , char[
-// `tick` ""quote"" 'q'
+Eval vm_compute in ("<<<M77>>>" ++ check (runes_of_ascii "
+packet	float { char[ 42] int`say ""hi""` , @tag( 255// packet A { u8 x, }
+) match// a // b
+stringy  as
+    x { [ 00 ,42
+]: i64_ 42 : matchKey , [ ""1"" , 1
+, 42
+    ,
+""" ++ [28040; 24687]%N ++ runes_of_ascii """ , ""abc"" ,
 // a // b
-4294967296 ]
-asx `{ , }`
-    ,
-repeat i8i8, repeat Packet { repeat
-    leftPad {	f32 u128
-@lengthOf(As ), body`two words` ,// packet A { u8 x, }
-rootA Pad , } , char[ 00
-] msg_type `tab	here` // " ++ [128512]%N ++ runes_of_ascii " emoji
+//x
+1 // trailing space 
+]
+: //
+roots
 ,
-    repeat
-    //x
-    i64_ `doc` , zchar x_y_z ,}
-,
-}
-root
-packet int {
-repeat f32a {repeat f32a  asx
-`u8 x,` ,} ,@lengthOf(
-// @lengthOf(
-//	t
-msg_type// packet A { u8 x, }
-) body ,
-// c
-//
-Z9_ // c
-zchar `a\` //x
-, } //x")).
-Eval vm_compute in ("<<<M65>>>" ++ check (runes_of_ascii "packet leftPad {
-match A as x {""`tick`""
-    : MetaDataX //
-, [""it's""
-,""\n"" ,
-""" ++ [28040; 24687]%N ++ runes_of_ascii """ ] :
-string_ , 0123456789 : o ,
-[
-""{,}"", ""x y"" ]
-:uint8x	} , char[3	] msg_type// " ++ [128512]%N ++ runes_of_ascii " emoji
-@lengthOf( u
-//	t
-// " ++ [27880; 37322]%N ++ runes_of_ascii "
-)`two words` ,
-    // c
-    repeat
-    int
-// packet A { u8 x, }
-// @lengthOf(
-Foo ,
-@rightPad
-(
-    )
-@rightPad
-( ' ' )
-    Foo charz`{ , }`, }
-MetaData A {
-zchar[
-0 ]A `{ , }`
-    , float32 a1
-    //
-    ,
-    char[]  pack , /// triple
-string body `" ++ [233]%N ++ runes_of_ascii "` , string chars `doc` , int _x`two words`
-,} options { Z9_ =
-    uint16 ; }")).
-Eval vm_compute in ("<<<M1520>>>" ++ check (runes_of_ascii "packet Logon {
-    repeatCount {
-        BodyLength `crlf
-                line`,
-    },
-    zchar a1 `u8 x,`,
-    match Foo as Foo {
-        ""\n"" : i8i8,
-        [""abc"", ""CRC32""] : crc,
-        [
-            3, 42, 1, 255, ""x y"",
-            ""`tick`"", ""a\""b"", ""CRC32""
-        ] : repeatCount,
-        [
-            1, 007, 007, 7, 255,
-            ""\n"", ""// no comment""
-        ] : uint8x,
-        00 : f32a,
-    },
-    // a // b
-    uint16 Pad @lengthOf(uint8x) `doc`,
-}")).
-Eval vm_compute in ("<<<M1563>>>" ++ check (runes_of_ascii "packet 
-rootA  { repeat uint16
-stringy	`" ++ [233]%N ++ runes_of_ascii "`	,
-    body
-	@lengthOf( stringy )
-,	int32
-    matchKey	// " ++ [27880; 37322]%N ++ runes_of_ascii "
-
-,	@lengthOf( roots
-)@calculatedFrom(
-""a\""b"")
-@leftPad (
-    ' ' 
-)i64 leftPad @lengthOf( repeatCount ) 
-`u8 x,`
-
-, //	t
-	f64 len
-@lengthOf(
-	BodyLength  // trailing space 
-)
-
-    `// not a comment`,@rightPad
-	( )
-    @leftPad
-
-(
-
-'0')repeat string
-    len  ,// c
-	char[]
-
-    chars `two words` ,
-} //	t
- 
-")).
-Eval vm_compute in ("<<<M1259>>>" ++ check (runes_of_ascii "// top
-packet // c0
-B // c1a
-  // c1b
-{ // c2
-u8 // c3a
-  // c3b
-a // c4
-, } // c6
-root // c7a
-  // c7b
-packet // c8a
-  // c8b
-P { // c10
-u8
-    // c11
-K , // c13
-u8 // c14a
-  // c14b
-L // c15a
-  // c15b
-@lengthOf( // c16a
-  // c16b
-Body )
-    // c18
-, match // c20
-K as // c22a
-  // c22b
-Body
-    // c23
-{ 1 :
-    // c26
-B // c27
-, }
-    // c29
-,
-    // c30
-}
-    // c31
-")).
-Eval vm_compute in ("<<<M1651>>>" ++ check (runes_of_ascii "
-
-  packet
-    A
-    { 
-u8
-
-    a ,
-	}
-    packet
-B
-{	u16
-
-    b
-	,
-
-}packet
-
-    C  { u32 c
-	, 
-}
-
-root	packet  M {	u16
-
-Kc
-
-    ,
-
-u16
-Kb, u16
-Ka	,
-
-    match
-Kc 
-as
-	X
-
-{ 9
-
-    :
-    A, 
-10 
-:
-	B	, }	,	match 
-Kb 
-as 
-Y
-{
-
-2 :
-C 
-, 1
-
-    : A
-, } ,
-match
-Ka as	Z {1 :
-
-    B
-,}
-
-    ,
-
-    A
-	,
-	B
-    ,
-
-C	,}
+    65535
+: trueish ,	} ,@calculatedFrom( ""{,}"" )body @calculatedFrom(""" ++ [28040; 24687]%N ++ runes_of_ascii """ ) , zchar[
+    007 ] lengthOf, }
 ")).
 Eval vm_compute in ("<<<M1268>>>" ++ check (runes_of_ascii "// top
 packet
@@ -824,59 +750,53 @@ t
     // c23
 , // c24
 } ")).
-Eval vm_compute in ("<<<M1465>>>" ++ check (runes_of_ascii "options {
+Eval vm_compute in ("<<<M1676>>>" ++ check (runes_of_ascii "options {
+    A = i16;
 }
 
-MetaData string_ {
-    u32 matchKey `u8 x,`,
-    string MetaDataX,
-    uint8 Logon,
-    uint64 options1,
-    char[00] len `tab	here`,
-    u8 options1,
-}
-
-// a // b
-packet a1 {
-    chars,
-    char[] i64_ @lengthOf(stringy),
-    char T,
-    repeat i8 charz `a\`,
+/// triple
+root packet rootA {
+    @tag(7)
+    int16 pack,
+    Logon @calculatedFrom(""a\""b"") `{ , }`,
+    @rightPad('\x00')
+    //
+    //
+    char[7] options1 `tab	here`,
+    @calculatedFrom(""" ++ [233]%N ++ runes_of_ascii "t" ++ [233]%N ++ runes_of_ascii """)
+    int @lengthOf(Packet) `crlf
+    line`,
 }")).
-Eval vm_compute in ("<<<M308>>>" ++ check (runes_of_ascii "options { pack// `tick` ""quote"" 'q'
-= 0123456789
-}
-packet metadata { @leftPad ( ' ' ) stringy
-@lengthOf( _x )
-    , repeat	u8
-int
-    `{ , }` ,
-@leftPad //	t
-('0' ) repeat char msg_type `it's`,
-} MetaData x_y_z { // trailing space 
+Eval vm_compute in ("<<<M1615>>>" ++ check (runes_of_ascii "packet body {
+    @lengthOf(T)
+    @lengthOf(int)
+    @leftPad('\x00')
+    asx len,
+    repeat zchar[3] int `" ++ [28040; 24687; 31867; 22411]%N ++ runes_of_ascii "`,
+    @lengthOf(options1)
+    match x as leftPad {
+        7 : x_y_z,
+        65535 : u128,
+        42 : x,
+    },//
 }")).
-Eval vm_compute in ("<<<M1429>>>" ++ check (runes_of_ascii "root
-packet
-// `tick` ""quote"" 'q'
-
-  string_
-	{  repeat char[ 00
-
-    ]
-
-    rootA ,  
-  // " ++ [128512]%N ++ runes_of_ascii " emoji
-
-  // " ++ [27880; 37322]%N ++ runes_of_ascii "
-
-  }MetaData u	{i32	options1  ,
-    }
-MetaData rootA { u16
-chars ,
-	/// triple
-	//x
+Eval vm_compute in ("<<<M1326>>>" ++ check (runes_of_ascii "packet Logon {
+    string user,
 }
-
+root packet Frame {
+    u8 K,
+    match K as Body {
+        1 : Logon,
+        2 : Logout,
+    },
+    Tail,
+}
+packet Logout {
+    u16 reason,
+}
+packet Tail {
+    u32 crc,
+}
 ")).
 Eval vm_compute in ("<<<M186>>>" ++ check (runes_of_ascii "root packet packetx	{	char[ 1 ]chars @calculatedFrom(
 ""packet"" ) `say ""hi""` ,} options
@@ -885,13 +805,16 @@ Eval vm_compute in ("<<<M186>>>" ++ check (runes_of_ascii "root packet packetx	{
     // a // b
     = 65535 u = float64 repeatCount  =""\" ++ [233]%N ++ runes_of_ascii """}
 ")).
-Eval vm_compute in ("<<<M60>>>" ++ check (runes_of_ascii "root packet _x
-{ uint32 trueish @calculatedFrom( ""1"" ) `crlf
-line`
-,  }
-    //
-    packet	Header { repeat u64
-stringy `// not a comment` , float32  msg_type ,}
+Eval vm_compute in ("<<<M431>>>" ++ check (runes_of_ascii "packet uint8x
+{ match pack
+    as msg_type	{
+    0123456789 0123456789 :	float
+}
+,
+} packet //	t
+a1
+    { } options {packetx
+    = '\x00'	; u128= ""a	b""  ; }
 ")).
 Eval vm_compute in ("<<<M458>>>" ++ check (runes_of_ascii "packet uint8x
 { match pack
@@ -915,8 +838,8 @@ a1
     { } } options {packetx
     = '\x00'	; u128= ""a	b""  ; }
 ")).
-Eval vm_compute in ("<<<M397>>>" ++ check (runes_of_ascii "packet {
-uint8x match pack
+Eval vm_compute in ("<<<M402>>>" ++ check (runes_of_ascii "packet uint8x
+match { pack
     as msg_type	{
     0123456789 :	float
 }
@@ -926,36 +849,38 @@ a1
     { } options {packetx
     = '\x00'	; u128= ""a	b""  ; }
 ")).
-Eval vm_compute in ("<<<M1241>>>" ++ check (runes_of_ascii "// top
-root
-    // c0
-packet // c1
-P // c2a
-  // c2b
-{ // c3
-char
-    // c4
-c // c5a
-  // c5b
-, // c6a
-  // c6b
-u8
-    // c7
-x // c8
-, // c9
-} // c10
-")).
-Eval vm_compute in ("<<<M408>>>" ++ check (runes_of_ascii "packet uint8x
-{ i8 pack
-    as msg_type	{
-    0123456789 :	float
-}
+Eval vm_compute in ("<<<M1623>>>" ++ check (runes_of_ascii "
+packet
+string_
+{  @lengthOf(  float
+
+    )  // @lengthOf(
+
+BodyLength
+	{
+match uint8x
+
+    as  i64_
+	{0123456789
+	:
+	As
+
+    ,}
+
 ,
-} packet //	t
-a1
-    { } options {packetx
-    = '\x00'	; u128= ""a	b""  ; }
+
+}
+    ,}
+
 ")).
+Eval vm_compute in ("<<<M652>>>" ++ check (runes_of_ascii "// @lengthOf(
+packet i8i8 { u128 o , }
+options { MetaDataX = true;
+    BodyLength =""packet"" x_y_z= 007
+crc crc //x
+= ""abc"" ;
+    msg_type =
+i16 }")).
 Eval vm_compute in ("<<<M395>>>" ++ check (runes_of_ascii "packet 
 { match pack
     as msg_type	{
@@ -967,14 +892,14 @@ a1
     { } options {packetx
     = '\x00'	; u128= ""a	b""  ; }
 ")).
-Eval vm_compute in ("<<<M722>>>" ++ check (runes_of_ascii "// @lengthOf(
-packet i8i8 { u128 o , }
-options { MetaDataX = true;
-    BodyLength =x_y_z ""packet""= 007
-crc //x
-= ""abc"" ;
-    msg_type =
-i16 }")).
+Eval vm_compute in ("<<<M137>>>" ++ check (runes_of_ascii "
+packet u128//x
+{ @calculatedFrom(  ""x y""
+    ) // `tick` ""quote"" 'q'
+@rightPad (  ' ') char[ 42 ]  Header
+    @calculatedFrom( ""abc"" ),  }
+
+")).
 Eval vm_compute in ("<<<M329>>>" ++ check (runes_of_ascii "  packet calculatedFrom
 { uint8x {body `line1
 line2`
@@ -983,177 +908,187 @@ line2`
 ) , char[]As@lengthOf(	Pad )
     , } , }
 ")).
-Eval vm_compute in ("<<<M514>>>" ++ check (runes_of_ascii "packet uint8x
-{ match pack
-    as msg_type	{
-    0123456789 :	float
-}
-,
-} packet //	t
-a1
-    { } options {packetx
-    = '\x00'	;")).
-Eval vm_compute in ("<<<M1617>>>" ++ check (runes_of_ascii "packet A {
-    u16 len @lengthOf(body) `tab
-    	x`,
-    u32 crc @calculatedFrom(""CRC32"") `tab
-    	x`,
-    string body,
-}")).
-Eval vm_compute in ("<<<M1159>>>" ++ check (runes_of_ascii "MetaData leftPad { chars MetaDataX , } packet repeatCount // c
-{ char[ 255 ] uint8x `" ++ [233]%N ++ runes_of_ascii "` , } MetaData pack { As Foo , }")).
-Eval vm_compute in ("<<<M102>>>" ++ check (runes_of_ascii "packet
-    // " ++ [128512]%N ++ runes_of_ascii " emoji
-    body {match Logon  as _x
-    {
-4294967296
-// a // b
-//x
-:
-_x , """ ++ [28040; 24687]%N ++ runes_of_ascii """
-    : u128
-    ,} , }
-")).
-Eval vm_compute in ("<<<M290>>>" ++ check (runes_of_ascii "options {
-    /// triple
-    asx // " ++ [27880; 37322]%N ++ runes_of_ascii "
-= 3 } MetaData T
-{  f32/// triple
-Pad `u8 x,` , } // `tick` ""quote"" 'q'")).
-Eval vm_compute in ("<<<M909>>>" ++ check (runes_of_ascii "packet A {
-  match k as n {
-    [1, ""bb"", 007, ""d"", 5, ""f"", 7, ""h"", 9, ""j"", 11, ""l""] : B
-    2 : C
-  },
-}")).
-Eval vm_compute in ("<<<M160>>>" ++ check (runes_of_ascii "
-MetaData zchar { roots
-A , char[] falsey `line1
-line2` ,
-// " ++ [128512]%N ++ runes_of_ascii " emoji
-// @lengthOf(
-int crc ,	} //	t")).
-Eval vm_compute in ("<<<M855>>>" ++ check (runes_of_ascii "packet A {
-  match k as n {
-    [""a"", ""bb"", ""c c"", ""d"", ""e"", ""f"", ""g"", ""h""] : B
-    2 : C
-  },
-}")).
-Eval vm_compute in ("<<<M1819>>>" ++ check (runes_of_ascii "packet 
-metadata
-	{
-	u32  // `tick` ""quote"" 'q'
-  Packet `say ""hi""` ,
-// trailing space 
+Eval vm_compute in ("<<<M1691>>>" ++ check (runes_of_ascii "// top
+root packet P {
+    // c3
+    u8 s_u8,// c6
+    repeat u8 r_u8,
+    // c10
+    u16 b_len,// c13a
+    // c13b
+}// c14a
+// c14b")).
+Eval vm_compute in ("<<<M1934>>>" ++ check (runes_of_ascii "
 
-	}")).
-Eval vm_compute in ("<<<M632>>>" ++ check (runes_of_ascii "
+  packet u 
+{
+
+    @tag(
+
+10// a // b
+  )  tag
+@lengthOf(
+    A 
+
+// " ++ [128512]%N ++ runes_of_ascii " emoji
+// a // b
+    )
+    ,  repeat options1, }")).
+Eval vm_compute in ("<<<M1147>>>" ++ check (runes_of_ascii "MetaData leftPad { // c
+chars MetaDataX , } packet repeatCount { char[ 255 ] uint8x `" ++ [233]%N ++ runes_of_ascii "` , } MetaData pack { As Foo , }")).
+Eval vm_compute in ("<<<M1179>>>" ++ check (runes_of_ascii "MetaData leftPad { chars MetaDataX , } packet repeatCount { char[ 255 ] uint8x `" ++ [233]%N ++ runes_of_ascii "` , } MetaData pack // c
+{ As Foo , }")).
+Eval vm_compute in ("<<<M1424>>>" ++ check (runes_of_ascii "
+packet B
+
+    {u8
+a  , string 
+s
+,} root
+	packet
+
+P 
+{
+	u16 L
+	@lengthOf(  B
+
+    )  , B  ,
+
+u8
+    t ,
+	}
+")).
+Eval vm_compute in ("<<<M902>>>" ++ check (runes_of_ascii "packet A {
+  match k as n {
+    [""a"", ""bb"", 007, ""d"", ""e"", 66, ""g"", ""h"", 9, ""j"", ""k""] : B
+    2 : C
+  },
+}")).
+Eval vm_compute in ("<<<M889>>>" ++ check (runes_of_ascii "packet A {
+  match k as n {
+    [""a"", ""bb"", 007, ""d"", ""e"", 66, ""g"", ""h"", 9, ""j""] : B
+    2 : C
+  },
+}")).
+Eval vm_compute in ("<<<M904>>>" ++ check (runes_of_ascii "packet A {
+  match k as n {
+    [1, 22, 007, 4, 5, 66, 7, 8, 9, 10, 11, 12] : B,
+    2 : C
+  },
+}")).
+Eval vm_compute in ("<<<M593>>>" ++ check (runes_of_ascii "
 packet
-    asx {match u128 a|s lengthOf
+    asx {match u128 as lengthOf
+{
+//	t
+// `tick` ""quote"" 'q'
+255 255 : x ,
+    } ,	}")).
+Eval vm_compute in ("<<<M682>>>" ++ check (runes_of_ascii "// @lengthOf(
+packet i8i8 { u128 o , }
+options { MetaDataX = true;
+    BodyLength =""packet""")).
+Eval vm_compute in ("<<<M614>>>" ++ check (runes_of_ascii "
+packet
+    asx {match u128 as lengthOf
+{
+//	t
+// `tick` ""quote"" 'q'
+255 : x ,
+    , }	}")).
+Eval vm_compute in ("<<<M557>>>" ++ check (runes_of_ascii "
+packet
+     {match u128 as lengthOf
 {
 //	t
 // `tick` ""quote"" 'q'
 255 : x ,
     } ,	}")).
-Eval vm_compute in ("<<<M1741>>>" ++ check (runes_of_ascii "MetaData crc {
-    Pad T,
-    zchar[0123456789] a1,
-    int8 trueish,
+Eval vm_compute in ("<<<M647>>>" ++ check (runes_of_ascii "// @lengthOf(
+packet i8i8 { u128 o , }
+options { MetaDataX = true;
+    BodyLength =")).
+Eval vm_compute in ("<<<M839>>>" ++ check (runes_of_ascii "packet A {
+  match k as n {
+    [1, 22, 007, 4, 5, 66, 7] : B,
+    2 : C
+  },
+}")).
+Eval vm_compute in ("<<<M827>>>" ++ check (runes_of_ascii "packet A {
+  match k as n {
+    [1, 22, 007, 4, 5, 66] : B
+    2 : C
+  },
+}")).
+Eval vm_compute in ("<<<M1475>>>" ++ check (runes_of_ascii "// top
+root packet P {
+    // c3
+    repeat char cs,
+    u8 x,
 }
-
-packet float {
-}")).
-Eval vm_compute in ("<<<M1700>>>" ++ check (runes_of_ascii "packet A {
-    match k as n {
-        [1, 007, ""bb"", ""d""] : B,
-        2 : C,
-    },
-}")).
-Eval vm_compute in ("<<<M1903>>>" ++ check (runes_of_ascii "// top
-packet body {
-    // c2
-    i32 f32a `{ , }`,// c6
-}// c7
-
-options {
-}// c10")).
-Eval vm_compute in ("<<<M1771>>>" ++ check (runes_of_ascii "packet A {
-    match k as n {
-        [1, 22, 007] : B,
-        2 : C,
-    },
-}")).
-Eval vm_compute in ("<<<M1587>>>" ++ check (runes_of_ascii "options {
-    charz = ""1""
-    _x = """ ++ [128512]%N ++ runes_of_ascii """
-    u = string;
-    stringy = """ ++ [28040; 24687]%N ++ runes_of_ascii """
-}")).
-Eval vm_compute in ("<<<M1842>>>" ++ check (runes_of_ascii "packet A {
-    B b `
-    x`,
-    B `
-    x`,
-    repeat B bs `
-    x`,
-}")).
+// c11")).
 Eval vm_compute in ("<<<M787>>>" ++ check (runes_of_ascii "packet A {
   match k as n {
     [1, 22, 007] : B,
     2 : C
   },
 }")).
-Eval vm_compute in ("<<<M444>>>" ++ check (runes_of_ascii "packet uint8x
-{ match pack
-    as msg_type	{
-    0123456789 :")).
-Eval vm_compute in ("<<<M776>>>" ++ check (runes_of_ascii "packet A {
-  match k as n {
-    [""a""] : B
-    2 : C
-  },
+Eval vm_compute in ("<<<M88>>>" ++ check (runes_of_ascii "options// @lengthOf(
+{a1 = 65535
+// `tick` ""quote"" 'q'
+// c
 }")).
-Eval vm_compute in ("<<<M1219>>>" ++ check (runes_of_ascii "packet body { i32 f32a `{ , }` , } options { } // c
-")).
-Eval vm_compute in ("<<<M1588>>>" ++ check (runes_of_ascii "root 
-packet
-    A
-	{u8 x
-
-    `a
+Eval vm_compute in ("<<<M1922>>>" ++ check (runes_of_ascii "// top
+root packet P {
+    // c3
+    string s,
+    // c6
+}")).
+Eval vm_compute in ("<<<M1198>>>" ++ check (runes_of_ascii "
+// c
+packet body { i32 f32a `{ , }` , } options { }")).
+Eval vm_compute in ("<<<M1079>>>" ++ check (runes_of_ascii "packet A { u8 x, } // a
+// b
+packet B {} // c
+// d")).
+Eval vm_compute in ("<<<M1737>>>" ++ check (runes_of_ascii "options {
+    len = ""packet""
+    int = ""abc""
+}")).
+Eval vm_compute in ("<<<M940>>>" ++ check (runes_of_ascii "root packet A {
+    u8 x `a
     b
-  c` , }")).
-Eval vm_compute in ("<<<M47>>>" ++ check (runes_of_ascii "MetaData	lengthOf
+  c`,
+}")).
+Eval vm_compute in ("<<<M1699>>>" ++ check (runes_of_ascii "packet A {
+    u8 x,// c
+    u8 y,
+}")).
+Eval vm_compute in ("<<<M1833>>>" ++ check (runes_of_ascii "packet A {
+    u8 x `d" ++ [8202]%N ++ runes_of_ascii "`,// c" ++ [8202]%N ++ runes_of_ascii "
+}")).
+Eval vm_compute in ("<<<M1053>>>" ++ check (runes_of_ascii "packet A {
+ u8 x `d" ++ [65279]%N ++ runes_of_ascii "`, // c" ++ [65279]%N ++ runes_of_ascii "
+}")).
+Eval vm_compute in ("<<<M1588>>>" ++ check (runes_of_ascii "
+MetaData tag
+{  // c
+
+}
+")).
+Eval vm_compute in ("<<<M63>>>" ++ check (runes_of_ascii "packet i64_
+    { }
+
+")).
+Eval vm_compute in ("<<<M170>>>" ++ check (runes_of_ascii "packet pack
 {
-Header o `doc`
-    ,}
-")).
-Eval vm_compute in ("<<<M591>>>" ++ check (runes_of_ascii "
-packet
-    asx {match u128 as lengthOf")).
-Eval vm_compute in ("<<<M197>>>" ++ check (runes_of_ascii "
-options {u8x
-=
-    ""packet"" ;	}
-")).
-Eval vm_compute in ("<<<M1839>>>" ++ check (runes_of_ascii "packet A {
-    // a
-    u8 x,
-}")).
-Eval vm_compute in ("<<<M757>>>" ++ check (runes_of_ascii "z>" ++ [65533]%N ++ runes_of_ascii "*" ++ [65533]%N ++ runes_of_ascii "7" ++ [65533; 65533; 65533; 65533]%N ++ runes_of_ascii "+" ++ [65533]%N ++ runes_of_ascii "~" ++ [65533; 0; 65533; 65533]%N ++ runes_of_ascii "c" ++ [1171]%N ++ runes_of_ascii "n" ++ [65533; 65533; 65533; 12; 65533]%N ++ runes_of_ascii "E>K")).
-Eval vm_compute in ("<<<M380>>>" ++ check (runes_of_ascii "root packet	Packet { }
-")).
-Eval vm_compute in ("<<<M1109>>>" ++ check (runes_of_ascii "MetaData tag { // c
-}")).
-Eval vm_compute in ("<<<M103>>>" ++ check (runes_of_ascii "packet packetx	{ }")).
-Eval vm_compute in ("<<<M1047>>>" ++ check (runes_of_ascii "// c" ++ [8203]%N ++ runes_of_ascii "
+} 	 ")).
+Eval vm_compute in ("<<<M1002>>>" ++ check (runes_of_ascii "// c" ++ [8192]%N ++ runes_of_ascii "
 packet A {
 }")).
-Eval vm_compute in ("<<<M1049>>>" ++ check (runes_of_ascii "packet A {
-}// c" ++ [65279]%N)).
-Eval vm_compute in ("<<<M297>>>" ++ check (runes_of_ascii "// " ++ [128512]%N ++ runes_of_ascii " emoji
-
-
-")).
-Eval vm_compute in ("<<<M985>>>" ++ check (runes_of_ascii "// c" ++ [160]%N)).
-Eval vm_compute in ("<<<M745>>>" ++ check ([65533]%N ++ runes_of_ascii "1")).
+Eval vm_compute in ("<<<M571>>>" ++ check (runes_of_ascii "
+packet
+    asx {")).
+Eval vm_compute in ("<<<M356>>>" ++ check (runes_of_ascii "packet uint8x {}")).
+Eval vm_compute in ("<<<M255>>>" ++ check (runes_of_ascii " /// triple")).
+Eval vm_compute in ("<<<M1045>>>" ++ check (runes_of_ascii "// c" ++ [8203]%N)).
